@@ -29,7 +29,7 @@ def plan(tier, seed):
                     'k': {'exclude': 'rand' if i % 2 else None, 'order': scenes.ORDERS[i % 4]}})
     for i in range(z['bimodal']):
         out.append({'fam': 'bimodal', 's': seed, 'p': NUM, 'i': 200000 + i,
-                    'k': {'order': scenes.ORDERS[i % 4], 'converge': i % 3 != 2, 'third': i % 5 == 0,
+                    'k': {'order': scenes.ORDERS[i % 4], 'converge': [True, 'diverge', False][i % 3], 'third': i % 5 == 0,
                           'nce': 1 + (i // 4) % 3, 'lookback': [100, 50, 20, 35.5, 10][(i // 4) % 5],
                           'coincident': (i // 2) % 2 == 0, 'near': i % 2 == 0,
                           'perc': [0, 5, 5, 50, None][(i // 8) % 5]}})
@@ -51,7 +51,7 @@ def plan(tier, seed):
 
 def check(desc):
     case = pipeline.materialise(desc)
-    if desc['i'] % 6 == 0 and desc['fam'] in ('bimodal', 'tiecut', 'chain'):
+    if desc['i'] % 6 in (0, 1) and desc['fam'] in ('bimodal', 'tiecut', 'chain'):
         # the global dictionary holds other base-height settings; the per-call dict names the packaged values
         case['prm']['glob'].update({'BASE_LVL_LOOKBACK_PERC': 35, 'BASE_LVL_HEIGHT_PERC': 60})
         if desc['fam'] == 'bimodal':
